@@ -22,7 +22,7 @@ if [ -z "${SKIP_CONFIRM:-}" ]; then
   (cd sqlite && go build ./... && go test -vet=off -count=1 ./... ) >> /tmp/seedtest-$$.log 2>&1; rc2=$?
   (cd fsim && go build ./... && go test -vet=off -count=1 ./... ) >> /tmp/seedtest-$$.log 2>&1; rc3=$?
   echo "SEED: existing tests with patch: root=$rc sqlite=$rc2 fsim=$rc3"
-  if [ $rc != 0 ] || [ $rc2 != 0 ] || [ $rc3 != 0 ]; then grep -v "^ok\|no test files" /tmp/seedtest-$$.log | cut -c1-200 | head -12; fi
+  if [ $rc != 0 ] || [ $rc2 != 0 ] || [ $rc3 != 0 ]; then grep -v "^ok\|no test files\|print.go\|^ *\[" /tmp/seedtest-$$.log | cut -c1-200 | head -8; fi
   DEMOS=$(ls $MD | grep "_test.go$")
   for d in $DEMOS; do
     dest=$(grep -o "[a-zA-Z0-9_/.-]*$d" $MD/notes.md | grep "/" | head -1 | sed "s#^/tmp/mut/[A-Za-z0-9]*/##")
